@@ -97,13 +97,13 @@ template <> US* make<US>() { return new US(2); } template <> UMS* make<UMS>() { 
 template <class C> static int run(int argc, char** argv, long failk) {
     int n = atoi(argv[2]); unsigned long seed0 = strtoul(argv[3], nullptr, 10); TR.open(argv[4]); HASH = argv[5];
     for (int i = 6; i < argc; i++) PROG.push_back(vh::split(argv[i], ','));
-    N = (int)PROG.size(); long steps = 0, stuck = 0; vh::Timer tm; static const int dens[4] = {1, 3, 10, 40};
+    N = (int)PROG.size(); long steps = 0, stuck = 0; vh::Timer tm; static const int dens[8] = {1, 3, 10, 40, -1, -2, -3, -5};
     for (int r = 0; r < n && stuck < 10; r++) {
         TR.begin_exec(); Drv<C>::cfg(failk > 0);
         g_log_destroy = false; C* c = make<C>(); g_log_destroy = true; g_copies = 0; g_fail_copy = failk;
         Sched S; S.stall_limit = 40000; S.log_schedule = true; focus_only(false);
         S.spawn(N, [&](int t) { for (auto& op : PROG[t]) { auto f = vh::split(op, ':'); Drv<C>::op(*c, t + 1, f[0], f.size() > 1 ? atoi(f[1].c_str()) : 0); } });
-        int rc = S.run_random(seed0 + r, 4000000, dens[r % 4]); steps += S.steps;
+        int rc = S.run_random(seed0 + r, 4000000, dens[r % 8]); steps += S.steps;
         TR.sched(S.sched_log);
         if (rc != RC_OK) { ++stuck; TR.emit("{\"e\":\"Stuck\",\"rc\":\"%s\"}", rc_name(rc).c_str()); S.join_all(); continue; }
         S.join_all(); g_fail_copy = -1;
